@@ -6,9 +6,59 @@ import KmipModel.Model.SrvConn
 import KmipModel.Model.Server
 namespace Kmip
 
+namespace Lts
+
+/-- NO component of a product can be blocked by the others: whatever states the other components
+    are in (stuck for ever included), every step of component `i` is a step of the product. -/
+theorem setAt_mem_prodStep {σ : Type} (S : Sys σ) :
+    ∀ (xs : List σ) (i : Nat) (s t : σ), xs[i]? = some s → t ∈ S.step s →
+      setAt xs i t ∈ prodStep S xs := by
+  intro xs
+  induction xs with
+  | nil => intro i s t h; simp at h
+  | cons x rest ih =>
+    intro i s t hi ht
+    cases i with
+    | zero =>
+      simp only [List.getElem?_cons_zero, Option.some.injEq] at hi
+      subst hi
+      simp only [setAt, prodStep, List.mem_append, List.mem_map]
+      exact Or.inl ⟨t, ht, rfl⟩
+    | succ j =>
+      simp only [List.getElem?_cons_succ] at hi
+      simp only [setAt, prodStep, List.mem_append, List.mem_map]
+      exact Or.inr ⟨setAt rest j t, ih j s t hi ht, rfl⟩
+
+/-- a run: each state is a `next`-successor of the one before. -/
+inductive Run {σ : Type} (next : σ → List σ) : σ → List σ → Prop
+  | nil (s : σ) : Run next s []
+  | cons {s t : σ} {rest : List σ} : t ∈ next s → Run next t rest → Run next s (t :: rest)
+
+/-- if every `next`-step from a state satisfying the (preserved) invariant `P` strictly decreases
+    `rank`, a run from such a state has at most `rank` steps: no infinite run. -/
+theorem run_length_le {σ : Type} (next : σ → List σ) (rank : σ → Nat) (P : σ → Prop)
+    (hP : ∀ s t, P s → t ∈ next s → P t)
+    (hdec : ∀ s t, P s → t ∈ next s → rank t < rank s) :
+    ∀ (run : List σ) (s : σ), P s → Run next s run → run.length ≤ rank s := by
+  intro run
+  induction run with
+  | nil => intro s _ _; exact Nat.zero_le _
+  | cons t rest ih =>
+    intro s hs hr
+    cases hr with
+    | cons ht hrest =>
+      have h1 := ih t (hP s t hs ht) hrest
+      have h2 := hdec s t hs ht
+      simp only [List.length_cons]
+      omega
+
+end Lts
+
 theorem SrvConn.bad_parts {p : SrvConn.Params} {s : SrvConn.State} (h : SrvConn.bad p s = false) :
     SrvConn.crashed s = false ∧ (SrvConn.stuck p s && !SrvConn.waitsOnPipelined s) = false ∧
-    SrvConn.misordered s = false ∧ SrvConn.invalidBad s = false ∧ SrvConn.hookBad s = false := by
+    SrvConn.misordered s = false ∧ SrvConn.invalidBad s = false ∧ SrvConn.hookBad s = false ∧
+    SrvConn.rankOk p s = true ∧ SrvConn.unansweredBad p s = false ∧
+    SrvConn.invalidUnansweredBad p s = false := by
   simpa [SrvConn.bad, Bool.or_eq_false_iff, and_assoc] using h
 
 namespace Server
